@@ -13,7 +13,9 @@ VF_TAB FT vf_grp_traits[] = { {372,15,1,0,0x04}, {385,7,2,0,0x04} };
 #define VF_N_TRL 3
 #define VF_H_TRL 94   /* hash-array size: largest tag + 1 */
 VF_TAB FT vf_trl_traits[] = { {10,15,3,0,0x64}, {89,28,2,0,0x04}, {93,2,1,0,0x04} };
-/* tags with a field-table entry (F8MetaCntx::_flu): every tag of the four tables plus three tags of other messages (7 BeginSeqNo, 58 Text, 112 TestReqID) */
-#define VF_FLU_SZ 447   /* FIX42UTEST: largest field number 446 + 1 */
-VF_TAB unsigned short vf_known_tags[] = { 7, 8, 9, 10, 34, 35, 43, 49, 50, 52, 56, 57, 58, 89, 90, 91, 93, 95, 96, 97, 98, 108, 112, 115, 116, 122, 128, 129, 141, 142, 143, 144, 145, 212, 213, 347, 369, 370, 372, 383, 384, 385 };
+/* tags with a field-table entry (F8MetaCntx::_flu) in this world: every tag of the four tables plus tags of other messages (7 BeginSeqNo, 58 Text,
+   112 TestReqID, 9999: the largest field of FIX42UTEST); every other tag below VF_FLU_SZ has a null entry here (tabcheck verifies that the tags used by the
+   harness menus have the same null/non-null status in the generated table) */
+#define VF_FLU_SZ 10000   /* FIX42UTEST: largest field number 9999 + 1 */
+VF_TAB unsigned short vf_known_tags[] = { 7, 8, 9, 10, 34, 35, 43, 49, 50, 52, 56, 57, 58, 89, 90, 91, 93, 95, 96, 97, 98, 108, 112, 115, 116, 122, 128, 129, 141, 142, 143, 144, 145, 212, 213, 347, 369, 370, 372, 383, 384, 385, 9999 };
 #define VF_NMSGS 3
